@@ -170,8 +170,6 @@ def run_admission(ctx, driver, atts, mode, pdesc, text_seed):
             res.append((f'att-{i}', fn))
         return res
     r = session.run_session(sc, SP.make_policy(pdesc), ctx.workdir, attempts=attempts, max_steps=400000)
-    if r.status == 'WATCHDOG':
-        raise common.Infra(f'scheduler watchdog: a thread blocked outside a yield point ({r.deadlock})')
     return r, outs_att, texts
 
 
